@@ -149,6 +149,9 @@ func (p *Program) SSAPkg(pkg *packages.Package) *ssa.Package {
 
 // SSAFunc returns the SSA function for a types.Func declared in the module (nil if none).
 func (p *Program) SSAFunc(fn *types.Func) *ssa.Function {
+	if fn == nil {
+		return nil
+	}
 	return p.SSA().FuncValue(fn)
 }
 
